@@ -89,7 +89,7 @@ CHECKS = {
          "DESIGN.md §5 C07"),
 }
 
-WIDENED = " Since the seeded-change rounds the workload of every check also includes, where the API allows it: sizes around power-of-two and buffer thresholds up to tens of thousands, arguments at the ends of the int range, several comparator styles and element types, inputs that alias each other, sparse as well as dense observation, returned results re-verified after later calls, a concurrent phase under the race detector for functions that should be pure, verified calls interleaved with calls abandoned half-way (callbacks that panic, recovered by the caller), optional configuration left out, value patterns that look like other notations, repeated and re-entrant calls, read-only calls from inside scans, method values bound at construction, structs moved by value, quiescent instances read by many goroutines, a different P count per block, and a second build of every worker for a 32-bit target (GOARCH=386) (DESIGN.md 11.6-11.6e)."
+WIDENED = " Since the seeded-change rounds the workload of every check also includes, where the API allows it: sizes around power-of-two and buffer thresholds up to tens of thousands, arguments at the ends of the int range, several comparator styles and element types, inputs that alias each other, sparse as well as dense observation, returned results re-verified after later calls, a concurrent phase under the race detector for functions that should be pure, verified calls interleaved with calls abandoned half-way (callbacks that panic, recovered by the caller), optional configuration left out, value patterns that look like other notations, repeated and re-entrant calls, read-only calls from inside scans, method values bound at construction, structs moved by value, quiescent instances read by many goroutines, a different P count per block, a second build of every worker for a 32-bit target (GOARCH=386), huge inputs and containers, dense sweeps over lengths and positions, callbacks that check what they are called with, element types whose == is not reflexive, arguments that share storage, other local time zones, readers that react to the consumer, independent instances busy at the same time, objects used again after reaching a terminal state, and documented no-op calls under open cursors (DESIGN.md 11.6-11.6h)."
 
 def built(pid):
     return os.path.exists(os.path.join(ROOT, "harness", "props", pid.lower() + ".go"))
